@@ -57,27 +57,32 @@ TextSel(d) ==
                 ELSE IF HasCap(d, "Error") THEN "errv"
                 ELSE "fmtv"
 
+\* "cell": a tabular.Cell value holding inner; "cellptr": a *tabular.Cell pointing at such a cell (it
+\* offers String, Height and TerminalCellWidth, which report what the pointed-to cell reports)
 RECURSIVE TextOf(_)
 TextOf(d) == CASE d.k = "nil" -> ""
-               [] d.k = "cell" -> TextOf(d.inner)
+               [] d.k \in {"cell", "cellptr"} -> TextOf(d.inner)
                [] OTHER -> d[TextSel(d)]
 
 RECURSIVE LinesOf(_)
 LinesOf(d) == CASE d.k = "nil" -> <<>>
-                [] d.k = "cell" -> LinesOf(d.inner)
+                [] d.k \in {"cell", "cellptr"} -> LinesOf(d.inner)
                 [] OTHER -> d.tx[TextSel(d)]
 
 LinesMaxW(ls) == SetMax({ls[i][2] : i \in DOMAIN ls})
 
 \* cached size fields, as computed when the cell (re)reads its item
-RECURSIVE CachedH(_)
-CachedH(d) == CASE d.k = "nil" -> 0
-                [] d.k = "cell" -> CachedH(d.inner)
-                [] OTHER -> IF HasCap(d, "Height") THEN d.h ELSE Len(LinesOf(d))
 RECURSIVE CachedW(_)
 CachedW(d) == CASE d.k = "nil" -> 0
                 [] d.k = "cell" -> CachedW(d.inner)
+                [] d.k = "cellptr" -> Max2(CachedW(d.inner), 0)          \* what the pointed-to cell's TerminalCellWidth() says
                 [] OTHER -> IF HasCap(d, "Width") THEN d.w ELSE LinesMaxW(LinesOf(d))
+RECURSIVE CachedH(_)
+CachedH(d) == CASE d.k = "nil" -> 0
+                [] d.k = "cell" -> CachedH(d.inner)
+                [] d.k = "cellptr" -> IF CachedH(d.inner) < 1                \* ... and its Height()
+                                      THEN (IF Max2(CachedW(d.inner), 0) > 0 THEN 1 ELSE 0) ELSE CachedH(d.inner)
+                [] OTHER -> IF HasCap(d, "Height") THEN d.h ELSE Len(LinesOf(d))
 
 \* snap: the item as it was when the cell last read it; iid: identity of the item object (by-value
 \* copies of a cell hold the same object, so a mutation of the item is seen through all of them)
@@ -387,8 +392,10 @@ Fire(st, t, r, evs) ==
         s1 == IF known /\ OwnerExists(st, ev[2], ev[3], ev[4])
               THEN SetPropOn(st, ev[2], ev[3], ev[4], MarkKey(cb), "vtrue") ELSE st
         src == "cb" \o ToString(cb)
-        s2 == IF known /\ st.cb[cb].fails
+        s2 == IF known /\ st.cb[cb].fails = 1
               THEN Raise(s1, t, r, Err("CB" \o ToString(cb) \o ":" \o ToString(CountSrc(s1, src) + 1), src))
+              ELSE IF known /\ st.cb[cb].fails = 2
+              THEN Raise(s1, t, r, Err("SENT", src))      \* one and the same error value, from whichever callback
               ELSE s1
     IN Fire(s2, t, r, Tail(evs))
 
@@ -555,10 +562,12 @@ RegOk(op) == Supported(op.owner.kind, op.target)
 DoRegCb(st, op) ==
   LET o == OwnerTriple(op.owner) IN
   [st EXCEPT !.cb = Append(@, [ok |-> RegOk(op), okind |-> o[1], oa |-> o[2], ob |-> o[3],
-                               time |-> op.time, target |-> op.target, fails |-> op.fails = 1,
+                               time |-> op.time, target |-> op.target, fails |-> op.fails,   \* 0 / 1 fresh error / 2 sentinel
                                also |-> {}])]     \* also: cells that are by-value copies of the owner cell
 
-DoRenderCbs(st, t, fired) == Fire(st, t, 0, fired)
+\* InvokeRenderCallbacks called directly: the measuring callbacks of any text / Markdown wrapper that
+\* exists for the table run too, and leave their private keys on the cells
+DoRenderCbs(st, t, fired) == Fire([st EXCEPT !.rendered = @ \/ Len(st.wr) > 0], t, 0, fired)
 
 SetCellAtRef(st, o, c) ==
   CASE o.kind = "cell"    -> [st EXCEPT !.row[o.r].cells[o.c] = c]
@@ -643,7 +652,7 @@ Inv_Detached(st) ==
 RECURSIVE TextFormOK(_, _)
 TextFormOK(d, txt) ==
   CASE d.k = "nil"  -> txt = ""
-    [] d.k = "cell" -> TextFormOK(d.inner, txt)
+    [] d.k \in {"cell", "cellptr"} -> TextFormOK(d.inner, txt)
     [] d.k \in {"str", "rune"} -> txt = d.s
     [] OTHER -> /\ HasCap(d, "String") => txt = d.strv
                 /\ (~HasCap(d, "String") /\ HasCap(d, "GoString")) => txt = d.gov
@@ -705,11 +714,13 @@ AgreeErrList(exp, o) ==
   LET obs == o.ids
       srcs == {exp[i].src : i \in DOMAIN exp}
       idsOf(src) == {exp[i].id : i \in {j \in DOMAIN exp : exp[j].src = src}}
+      \* an id that several sources raise (the sentinel) cannot be attributed: it counts in the multiset only
+      shared == {x \in Range(Ids(exp)) : Cardinality({exp[i].src : i \in {j \in DOMAIN exp : exp[j].id = x}}) > 1}
   IN /\ ~Has(obs, "nil")
      /\ (o.isnil = 1) <=> (exp = <<>>)
      /\ BagOf(obs) = BagOf(Ids(exp))
-     /\ \A s \in srcs : SelectSeq(obs, LAMBDA x : x \in idsOf(s))
-                        = Ids(SelectSeq(exp, LAMBDA e : e.src = s))
+     /\ \A s \in srcs : SelectSeq(obs, LAMBDA x : x \in idsOf(s) \ shared)
+                        = SelectSeq(Ids(SelectSeq(exp, LAMBDA e : e.src = s)), LAMBDA x : x \notin shared)
 
 AgreeErrs(st, o) ==
   /\ Len(o.tbl) = Len(st.tbl)
